@@ -14,7 +14,8 @@
 (* through (one event per tick).  The specification keeps                   *)
 (*   want[v]  the logical state of v after all operations *issued* so far   *)
 (*            (press => down, release => up, tap => down then up,           *)
-(*             toggle => the other one) - in the order they were issued,    *)
+(*             toggle => the other one, also when an earlier event of the   *)
+(*             key is still queued) - in the order they were issued,        *)
 (*   down[v]  the state after the events *processed* so far,                *)
 (* and the only thing that depends on the trigger is WHEN its operations    *)
 (* are issued (the trigger's own latency):                                  *)
@@ -88,7 +89,6 @@ MonInit(p) ==
    pend |-> <<>>,                           \* expected transitions not yet observed [c, d, age, src]
    mute |-> {},                             \* macro virtual keys re-triggered while playing
    sqa |-> FALSE, sqb |-> <<>>, sqt |-> 0,  \* sequence mode: active, keys typed so far, ticks since the last one
-   rt |-> {},                               \* virtual keys toggled while their state was in flight (sticky)
    sync |-> TRUE, err |-> ""]
 
 VIt(t, i, src) == [t |-> t, i |-> i, src |-> src]
@@ -105,7 +105,7 @@ VExecOp(m, v, op, src) ==
        [] op = "tap" -> VPush(VPush([m EXCEPT !.want[v] = FALSE], VIt("vd", v, src)), VIt("vu", v, src))
        [] op = "toggle" ->
             IF mac THEN VPush(m, VIt("vd", v, src))
-            ELSE VPush([m EXCEPT !.want[v] = ~w, !.rt = IF w # m.down[v] THEN @ \cup {v} ELSE @],
+            ELSE VPush([m EXCEPT !.want[v] = ~w],
                        VIt(IF w THEN "vu" ELSE "vd", v, src))
        [] OTHER -> Fail(m, "C18: unknown virtual key operation")
 
@@ -246,16 +246,11 @@ VRefTick(m) ==
   IN VHfdTick(m3, 1)
 
 \* ----- observation -------------------------------------------------------------------------
-VRacyMsg == "C18: a toggle issued while an earlier operation on the same virtual key was still queued did not alternate (toggle looks only at processed state)"
 VMuted(m, c) == LET v == VOwner(m.p, c) IN v # 0 /\ v \in m.mute
 
-\* is code c judged through a virtual key that was toggled while in flight?
-VRacy(m, c) == LET v == VOwner(m.p, c) IN
-               IF v # 0 THEN v \in m.rt ELSE \E u \in m.rt : m.p.vk[u].kind = "lwh"
 VUnexpectedMsg(m, e) ==
   LET v == VOwner(m.p, e[2]) IN
-  IF VRacy(m, e[2]) THEN VRacyMsg
-  ELSE IF v # 0 /\ m.hf[v] > 0 /\ e[1] = "u" THEN "C18: hold-for-duration: the key was released before the stated time had passed since its most recent activation"
+  IF v # 0 /\ m.hf[v] > 0 /\ e[1] = "u" THEN "C18: hold-for-duration: the key was released before the stated time had passed since its most recent activation"
   ELSE IF v # 0 /\ m.hf[v] > 0 /\ e[1] = "d" THEN "C18: hold-for-duration: a second press while the key is being held (re-arming must only extend)"
   ELSE IF v # 0 /\ \E i \in DOMAIN m.idl : m.idl[i].v = v
   THEN "C18: on-idle fired before kanata had been idle for the stated time (or an output no operation accounts for)"
@@ -264,8 +259,7 @@ VUnexpectedMsg(m, e) ==
   ELSE "C18: the virtual key's action went up with no operation accounting for it (wrong operation, order or tick)"
 
 VOverdueMsg(m, x) ==
-  IF VRacy(m, x.c) THEN VRacyMsg
-  ELSE IF x.src = "hfd" /\ x.d = "u" THEN "C18: hold-for-duration: the key was not released when the stated time had passed"
+  IF x.src = "hfd" /\ x.d = "u" THEN "C18: hold-for-duration: the key was not released when the stated time had passed"
   ELSE IF x.src = "hfd" THEN "C18: hold-for-duration: the key was not pressed on activation"
   ELSE IF x.src = "idle" THEN "C18: on-idle did not fire when kanata had been idle for the stated time"
   ELSE IF x.src = "probe" THEN "C18: probe key output missing"
